@@ -12,7 +12,7 @@ import (
 // C12: behaviour is immune to caller-side mutation and to request history.
 
 type C12Step struct {
-	Op   string `json:"op"` // create | reconfigure | scribble_input | scribble_output | evil | burst | scribble_retained
+	Op   string `json:"op"` // create | reconfigure | mutate_reconfigure | scribble_input | scribble_output | evil | burst | scribble_retained
 	Idx  int    `json:"mw"`
 	Cfg  *Cfg   `json:"cfg,omitempty"`
 	Reqs []Req  `json:"reqs,omitempty"`
@@ -146,7 +146,24 @@ func c12Gen(t *rapid.T) C12Case {
 			}
 			c.Steps = append(c.Steps, C12Step{Op: op, Idx: idx, Cfg: &cfg})
 			live[idx] = cfg
-		case k < 30:
+		case k < 22:
+			// the caller edits the Config it passed earlier IN PLACE (same backing arrays) and reconfigures with it
+			x := cur
+			x.Origins = append([]Str{}, cur.Origins...)
+			if len(x.Origins) > 0 && !x.AllowAll() {
+				x.Origins[uniform(t, "editpos", len(x.Origins))] = Str(pick(t, "neworigin", []string{"https://edited.example", "https://*.edited.example:*", "http://localhost:7777", "https://example.com:8443", "http://127.0.0.1:7777"}))
+			}
+			if len(x.Methods) > 0 && chance(t, "editmethod", 50) {
+				x.Methods = append([]Str{}, cur.Methods...)
+				x.Methods[uniform(t, "editmpos", len(x.Methods))] = "EDITED"
+			}
+			if len(x.RequestHeaders) > 0 && chance(t, "edithdr", 50) {
+				x.RequestHeaders = append([]Str{}, cur.RequestHeaders...)
+				x.RequestHeaders[uniform(t, "edithpos", len(x.RequestHeaders))] = "X-Edited"
+			}
+			c.Steps = append(c.Steps, C12Step{Op: "mutate_reconfigure", Idx: idx, Cfg: &x})
+			live[idx] = x
+		case k < 32:
 			c.Steps = append(c.Steps, C12Step{Op: "scribble_input", Idx: idx})
 		case k < 48:
 			c.Steps = append(c.Steps, C12Step{Op: "scribble_output", Idx: idx})
@@ -216,6 +233,48 @@ func c12Check(c C12Case, rec *Recorder) *Disc {
 			n.baseline = SuiteSig(m.Wrap, n.suite)
 			n.cfgJSON = cfgJSON(m.Config())
 			w.mws[s.Idx] = n
+		case "mutate_reconfigure":
+			if mw == nil || s.Cfg == nil || len(mw.passed) == 0 {
+				continue
+			}
+			// write the new entries into the very Config value handed over last time, reusing its backing arrays
+			p := mw.passed[len(mw.passed)-1]
+			inPlace := func(dst *[]string, src []string) {
+				if src == nil {
+					*dst = nil
+					return
+				}
+				if cap(*dst) >= len(src) {
+					*dst = (*dst)[:len(src)]
+				} else {
+					*dst = make([]string, len(src), len(src)+4)
+				}
+				copy(*dst, src)
+			}
+			want := s.Cfg.Cors()
+			inPlace(&p.Origins, want.Origins)
+			inPlace(&p.Methods, want.Methods)
+			inPlace(&p.RequestHeaders, want.RequestHeaders)
+			inPlace(&p.ResponseHeaders, want.ResponseHeaders)
+			p.Credentialed, p.MaxAgeInSeconds, p.ExtraConfig = want.Credentialed, want.MaxAgeInSeconds, want.ExtraConfig
+			if err := mw.m.Reconfigure(p); err != nil {
+				rec.Class("rejected-config")
+				// a rejected Reconfigure leaves the old behaviour; the in-place edit must not have changed it either
+				if d := w.invariant(i, s.Op+"(rejected)", rec); d != nil {
+					return d
+				}
+				continue
+			}
+			// from now on the middleware must behave exactly like a fresh one built from the edited configuration
+			fresh, err := cors.NewMiddleware(s.Cfg.Cors())
+			if err != nil {
+				return discf("step %d: edited configuration %+v accepted by Reconfigure but rejected by NewMiddleware: %v", i, *s.Cfg, err)
+			}
+			n := &c12MW{m: mw.m, cfg: *s.Cfg, suite: Suite(*s.Cfg), passed: mw.passed, fetched: mw.fetched}
+			n.baseline = SuiteSig(fresh.Wrap, n.suite)
+			n.cfgJSON = cfgJSON(fresh.Config())
+			w.mws[s.Idx] = n
+			adversarial = true
 		case "scribble_input":
 			if mw == nil {
 				continue
@@ -274,7 +333,7 @@ func c12Check(c C12Case, rec *Recorder) *Disc {
 
 func TestC12(t *testing.T) {
 	Prop[C12Case]{ID: "C12", Gen: c12Gen, Check: c12Check,
-		Rule: "generator: history of 3-15 steps over up to 3 live middlewares: create / reconfigure from a Config whose slices have spare capacity; scribble over every slice (and spare capacity) of every Config ever passed in; fetch Config() and scribble over every result ever fetched; " +
+		Rule: "generator: history of 3-15 steps over up to 3 live middlewares: create / reconfigure from a Config whose slices have spare capacity; edit the previously passed Config IN PLACE (same backing arrays) and Reconfigure with it, after which the middleware must behave like a fresh one built from the edited configuration; scribble over every slice (and spare capacity) of every Config ever passed in; fetch Config() and scribble over every result ever fetched; " +
 			"evil requests (any kind) through a wrapped handler that overwrites in place, re-slices to capacity and appends to every value slice reachable from r.Header and w.Header(), deletes/sets keys and keeps the slices; scribble over the retained slices later; benign request bursts. " +
 			"Invariant after every step, for every live middleware: answers to its ~150-request suite (fresh requests, benign handler) and Config() equal the baseline recorded right after creation. " +
 			"non-trivial = history containing a scribble or an evil non-preflight request followed by a probe; distinct by history.",
